@@ -4,6 +4,7 @@ import (
 	"fmt"
 	"math/rand"
 	"sort"
+	"strconv"
 	"strings"
 	"sync"
 	"time"
@@ -54,7 +55,13 @@ type Path struct {
 	NAsserts     int
 	NAssertsTriv int
 	spawned      []*Job
-	known        []string // KNOWN-FINDING lines emitted on this path
+	facts        map[int]*Term // term id -> constant implied by the path condition
+	simpMemo     map[int]*Term
+}
+
+type qentry struct {
+	res Result
+	m   Model
 }
 
 // Violation is a candidate property violation (before native replay).
@@ -238,7 +245,69 @@ func (ip *Interp) addPC(c *Term) {
 		ip.addPC(c.Args[1])
 		return
 	}
-	ip.path.PC = append(ip.path.PC, c)
+	p := ip.path
+	p.PC = append(p.PC, c)
+	if p.facts == nil {
+		p.facts = map[int]*Term{}
+	}
+	changed := false
+	switch {
+	case c.Op == OpEq && c.Args[1].IsConst() && !c.Args[0].IsConst():
+		p.facts[c.Args[0].ID] = c.Args[1]
+		changed = true
+	case c.Op == OpEq && c.Args[0].IsConst() && !c.Args[1].IsConst():
+		p.facts[c.Args[1].ID] = c.Args[0]
+		changed = true
+	}
+	if c.Op == OpNot {
+		p.facts[c.Args[0].ID] = ip.st.F
+	} else {
+		p.facts[c.ID] = ip.st.T
+	}
+	_ = changed
+	p.simpMemo = nil
+}
+
+// simp rewrites t using the constants implied by the path condition.
+func (ip *Interp) simp(t *Term) *Term {
+	p := ip.path
+	if p == nil || len(p.facts) == 0 || t.IsConst() {
+		return t
+	}
+	if p.simpMemo == nil {
+		p.simpMemo = map[int]*Term{}
+	}
+	return ip.simpRec(t)
+}
+
+func (ip *Interp) simpRec(t *Term) *Term {
+	if t.IsConst() {
+		return t
+	}
+	p := ip.path
+	if r, ok := p.simpMemo[t.ID]; ok {
+		return r
+	}
+	if k, ok := p.facts[t.ID]; ok {
+		p.simpMemo[t.ID] = k
+		return k
+	}
+	r := t
+	if len(t.Args) > 0 {
+		args := make([]*Term, len(t.Args))
+		same := true
+		for i, a := range t.Args {
+			args[i] = ip.simpRec(a)
+			if args[i] != a {
+				same = false
+			}
+		}
+		if !same {
+			r = ip.st.Rebuild(t, args)
+		}
+	}
+	p.simpMemo[t.ID] = r
+	return r
 }
 
 // query decides PC ∧ extra with independence slicing. On Sat the returned
@@ -267,7 +336,31 @@ func (ip *Interp) query(extra *Term) (Result, Model) {
 			}
 		}
 	}
-	res, m := ip.sv.Check(asserts)
+	ids := make([]int, len(asserts))
+	for i, a := range asserts {
+		ids[i] = a.ID
+	}
+	sort.Ints(ids)
+	var kb strings.Builder
+	for _, id := range ids {
+		kb.WriteString(strconv.Itoa(id))
+		kb.WriteByte(',')
+	}
+	key := kb.String()
+	var res Result
+	var m Model
+	if ce, ok := ip.qcache[key]; ok {
+		res, m = ce.res, ce.m
+		ip.qhits++
+	} else {
+		res, m = ip.sv.Check(asserts)
+		if res != Unknown {
+			if ip.qcache == nil || len(ip.qcache) > 200000 {
+				ip.qcache = map[string]qentry{}
+			}
+			ip.qcache[key] = qentry{res, m}
+		}
+	}
 	if res != Sat {
 		return res, nil
 	}
@@ -310,6 +403,10 @@ func (ip *Interp) branch(c *Term) bool {
 	}
 	if ip.inInit || ip.path == nil {
 		ip.oom("symbolic branch outside a path")
+	}
+	c = ip.simp(c)
+	if c.IsConst() {
+		return c.Val == 1
 	}
 	p := ip.path
 	st := ip.st
@@ -387,6 +484,10 @@ func (ip *Interp) concretize(t *Term, what string) uint64 {
 	if ip.inInit || ip.path == nil {
 		ip.oom("concretize outside a path")
 	}
+	t = ip.simp(t)
+	if t.IsConst() {
+		return t.Val
+	}
 	p := ip.path
 	st := ip.st
 	if ip.forced() {
@@ -425,6 +526,7 @@ func (ip *Interp) concretize(t *Term, what string) uint64 {
 
 // assume adds c to the path condition, ending the path if infeasible.
 func (ip *Interp) assume(c *Term) {
+	c = ip.simp(c)
 	if c.IsTrue() {
 		return
 	}
@@ -516,6 +618,7 @@ func (ip *Interp) assertCond(c *Term, label string) {
 		return
 	}
 	p.NAsserts++
+	c = ip.simp(c)
 	if c.IsTrue() {
 		p.NAssertsTriv++
 		return
